@@ -34,7 +34,7 @@ func init() {
 // file is empty, nothing to read", "the offset is past the end" - answers from stale state.
 func ruleCachedSizeSites(rule string) func(*Ctx) {
 	return func(c *Ctx) {
-		c.floor(rule, 2, "reads of the cached size in pkg/fs")
+		c.floor(rule, 1, "reads of the cached size in pkg/fs")
 		infoField := c.field("pkg/fs", "File", "info")
 		if infoField == nil {
 			return
@@ -63,7 +63,7 @@ func ruleCachedSizeSites(rule string) func(*Ctx) {
 					root.Name+" takes a decision from the size cached when the handle was opened: a file that another handle has written since (or this handle has grown) is answered from the stale size - e.g. a read that reports end of file on a file that has content")
 			}
 		}
-		if n < 2 {
+		if n < 1 {
 			c.unresolved("only %d reads of the cached size found", n)
 		}
 	}
@@ -300,17 +300,25 @@ func ruleIndexStartOffset(rule string) func(*Ctx) {
 			return
 		}
 		sig := index.Obj.Type().(*types.Signature)
-		pos := map[string]int{}
-		for i := 0; i < sig.Params().Len(); i++ {
-			pos[sig.Params().At(i).Name()] = i
-		}
-		ri, oi := pos["record"], pos["offset"]
 		n := 0
 		for _, f := range c.Funcs {
 			info := f.Pkg.TypesInfo
 			for _, cs := range f.calls {
-				if cs.Target != index || len(cs.Call.Args) <= oi {
+				if cs.Target != index {
 					continue
+				}
+				recArg, ok1 := roleArg(f, cs.Call, sig, "record")
+				offArg, ok2 := roleArg(f, cs.Call, sig, "offset")
+				if !ok1 || !ok2 {
+					c.unresolved("cannot tell what %s passes to recovery.Index as record and offset", c.pos(cs.Call.Pos()))
+					continue
+				}
+				zero := &ast.BasicLit{Kind: token.INT, Value: "0"}
+				if recArg == nil {
+					recArg = zero
+				}
+				if offArg == nil {
+					offArg = zero
 				}
 				n++
 				// does the record argument derive from the last indexed position?
@@ -346,17 +354,20 @@ func ruleIndexStartOffset(rule string) func(*Ctx) {
 						return true
 					})
 				}
-				visit(cs.Call.Args[ri], 0)
-				tv := info.Types[cs.Call.Args[oi]]
+				visit(recArg, 0)
+				tv := info.Types[offArg]
 				off := ""
 				if tv.Value != nil {
 					off = tv.Value.String()
+				}
+				if offArg == ast.Expr(zero) {
+					off = "0"
 				}
 				construct := fmt.Sprintf("Index call#%d", n)
 				// the archive shape: `off := 1; if overwrite { off = 0 }` next to `if !overwrite { rec, blk = last indexed }`:
 				// the offset is 0 exactly when the position is NOT taken from the index
 				if off == "" && fromLast {
-					if ov := objOfIdent(info, cs.Call.Args[oi]); ov != nil {
+					if ov := objOfIdent(info, offArg); ov != nil {
 						type gdef struct {
 							val  string
 							cond string // "" unconditional, else "<ident>=<polarity>"
@@ -433,9 +444,9 @@ func ruleIndexStartOffset(rule string) func(*Ctx) {
 				}
 				switch {
 				case fromLast:
-					c.verdictIf(off == "1", rule, f, construct, cs.Call.Pos(), "starts at the last indexed position and skips that header (offset 1)", "this pass starts at the last indexed position but passes offset "+exprString(cs.Call.Args[oi])+": the header that is already in the index is applied again - a trailing delete record then fails with 'no rows'")
+					c.verdictIf(off == "1", rule, f, construct, cs.Call.Pos(), "starts at the last indexed position and skips that header (offset 1)", "this pass starts at the last indexed position but passes offset "+exprString(offArg)+": the header that is already in the index is applied again - a trailing delete record then fails with 'no rows'")
 				default:
-					c.verdictIf(off == "0", rule, f, construct, cs.Call.Pos(), "starts at a caller-given position and applies every header (offset 0)", "this pass starts at a caller-given position but passes offset "+exprString(cs.Call.Args[oi])+": the first header of the range is skipped")
+					c.verdictIf(off == "0", rule, f, construct, cs.Call.Pos(), "starts at a caller-given position and applies every header (offset 0)", "this pass starts at a caller-given position but passes offset "+exprString(offArg)+": the first header of the range is skipped")
 				}
 			}
 		}
